@@ -107,9 +107,17 @@ std::string fmtDeliveries(const std::vector<Delivery> &v, bool withThread)
     return s;
 }
 
+// harness threads: the end of a producer happens-before the return of join() (announced for the race pass; the scheduler's own
+// hand-offs are invisible to the detector)
+char g_joinToken[256];
+int spawnJ(std::function<void()> body, const char *name)
+{
+    return vs::spawn([body] { body(); VQT_REL(&g_joinToken[vs::self() & 255]); }, name);
+}
 void join(const std::vector<int> &tids)
 {
     vs::point("join", [tids] { for (int t : tids) if (!vs::isFinished(t)) return false; return true; });
+    for (int t : tids) VQT_ACQ(&g_joinToken[t & 255]);
 }
 
 // ------------------------------------------------------------------------------------------------ C02
@@ -163,7 +171,7 @@ void scenarioC02L()
     buildC02Pipeline(*lg);
     lg->installMessageHandler();
     std::vector<int> tids;
-    for (int k = 0; k < p; k++) tids.push_back(vs::spawn([k, m] { for (int i = 0; i < m; i++) qDebug("p%d:%d", k, i); }, "producer"));
+    for (int k = 0; k < p; k++) tids.push_back(spawnJ([k, m] { for (int i = 0; i < m; i++) qDebug("p%d:%d", k, i); }, "producer"));
     join(tids);
     Logger::restorePreviousMessageHandler();
     delete lg;
@@ -177,7 +185,7 @@ void scenarioC02B()
     auto *h = new OwnThreadHandler<Pipeline>();
     buildC02Pipeline(*h);
     std::vector<int> tids;
-    for (int k = 0; k < p; k++) tids.push_back(vs::spawn([k, m, h] {
+    for (int k = 0; k < p; k++) tids.push_back(spawnJ([k, m, h] {
         for (int i = 0; i < m; i++) {
             QMessageLogContext ctx("f.cpp", 1, "fn", "cat");
             LogMessage msg(QtDebugMsg, ctx, QStringLiteral("p%1:%2").arg(k).arg(i));
@@ -262,7 +270,7 @@ void scenarioC03H()
     W->workerTid = lastStartedTid();
     installContendOracle();
     std::vector<int> tids;
-    for (int k = 0; k < p; k++) tids.push_back(vs::spawn([k, m, h, origs] {
+    for (int k = 0; k < p; k++) tids.push_back(spawnJ([k, m, h, origs] {
         // one caller-owned buffer per producer that is REUSED for every message (same address, new contents): what a binding
         // that formats source locations into a scratch buffer does. Odd messages use fresh heap strings / null pointers instead.
         char *reFile = (char *)malloc(32), *reFunc = (char *)malloc(32), *reCat = (char *)malloc(32);
@@ -329,7 +337,7 @@ void scenarioC03G()
     W->workerTid = lastStartedTid();
     installContendOracle();
     std::vector<int> tids;
-    for (int k = 0; k < p; k++) tids.push_back(vs::spawn([k, m, lg, origs] {
+    for (int k = 0; k < p; k++) tids.push_back(spawnJ([k, m, lg, origs] {
         char *reFile = (char *)malloc(32), *reFunc = (char *)malloc(32), *reCat = (char *)malloc(32);
         for (int i = 0; i < m; i++) {
             bool nulls = (k + i) % 3 == 2;
@@ -398,7 +406,7 @@ template<class H> void scenarioC04(int path)
             h->process(msg);
             sent->push_back(text.toStdString()); before.push_back(text.toStdString());
         }
-        if (racer > 0 && c == 0) racerTid = vs::spawn([racer, h, sent] {
+        if (racer > 0 && c == 0) racerTid = spawnJ([racer, h, sent] {
             for (int i = 0; i < racer; i++) {
                 QMessageLogContext ctx("f.cpp", 1, "fn", "cat");
                 QString text = QStringLiteral("p1:%1").arg(i);
@@ -497,7 +505,7 @@ template<class H> void scenarioC04X()
         vs::progress();
         if ((int)i == P.racerAt && P.racer > 0) {
             int n = P.racer;
-            racerTid = vs::spawn([n, h, sent] {
+            racerTid = spawnJ([n, h, sent] {
                 for (int k = 0; k < n; k++) {
                     QString text = QStringLiteral("p1:%1").arg(k);
                     bool mustBeSync = W->syncForever;   // the last stop had returned before this call began
